@@ -289,6 +289,7 @@ func (o Outcome) Coq() string {
 
 type Op struct {
 	T              bool // transpose
+	Tip            bool `json:",omitempty"` // in-place transpose (receivers only, round 7)
 	Rf, Rt, Cf, Ct int  // slice
 }
 
